@@ -21,6 +21,7 @@ EXPLANATION = (
     "is not installed here are analysed too but reported as info. NOT decided: equality of yielded values with and without "
     "selector beyond 'same object X'; determinism of helper functions."
     " Rules added after the sixth blind round: (R10.5) readers call make_selector(selector) without forcing an engine; (R10.6) CompiledSelector.match and WrappedRecord keep no state between records."
+    " After the seventh blind round the scope of R10.3 was extended to the memoised methods of RecordDescriptor (getfields & co.)."
 )
 RULE_SUMMARY = "instances: (reader, yield) pairs, state attributes, persistent-store sites, make_selector branches; non-trivial = branch facts / reachability computed"
 
